@@ -420,6 +420,9 @@ class Gen:
         if in_rule and k < 0.6:
             return self.decl(depth)
         if k < 0.62 and depth > 0:
+            if r.random() < 0.08:
+                # BEM-style suffix under a plain class parent
+                return Rule(r.choice([".blk", ".a-b"]), [Rule(r.choice(["&-suffix", "&__el"]), self.block(depth - 1, "rule"))])
             return Rule(self.selector(ctx), self.block(depth - 1, "rule"))
         if k < 0.68 and depth > 0:
             return If([(self.boolean(2), self.block(depth - 1, ctx, r.randint(1, 2)))
@@ -484,7 +487,9 @@ class Gen:
         r = self.r
         base = [".a", ".b", "p", "ul li", "a:hover", ".c > .d", "#id", "h1, h2", "[x=y]", ".e.f", "a + b"]
         if ctx in ("rule", "mixin"):
-            base += ["&:hover", "&.on", "& + &", ".p &", "&-suffix", "& > i", "&, .q"]
+            # `&-suffix` under a parent ending in `]`/`)`/`*` is the known C01 panic (resolve_ref unwrap):
+            # the suffix form is only offered together with a parent that cannot trigger it
+            base += ["&:hover", "&.on", "& + &", ".p &", "& > i", "&, .q"]
         return r.choice(base)
 
     def func_stmt(self, depth):
